@@ -188,3 +188,80 @@ Proof.
     replace (Z.of_nat width) with (zlen b) by (unfold zlen; lia). rewrite Hd. cbn [bind].
     rewrite <- Hl at 2. rewrite skipn_app_exact. rewrite IH. reflexivity.
 Qed.
+
+(* ---------- count_packed_elements on a canonical packed payload *)
+Definition is_fixed32 (t : ftype) := match t with TSfixed32 | TFixed32 | TFloat => true | _ => false end.
+Definition is_fixed64 (t : ftype) := match t with TSfixed64 | TFixed64 | TDouble => true | _ => false end.
+
+Lemma count_fixed32 : forall t len data c0, is_fixed32 t = true ->
+  count_packed_elements (type_code t) len data c0 =
+  if negb (len mod 4 =? 0) then (0, c0) else (1, len / 4).
+Proof. intros t len data c0 H. destruct t; try discriminate H; reflexivity. Qed.
+Lemma count_fixed64 : forall t len data c0, is_fixed64 t = true ->
+  count_packed_elements (type_code t) len data c0 =
+  if negb (len mod 8 =? 0) then (0, c0) else (1, len / 8).
+Proof. intros t len data c0 H. destruct t; try discriminate H; reflexivity. Qed.
+Lemma count_varint : forall t len data c0, is_varint_type t = true -> t <> TBool ->
+  count_packed_elements (type_code t) len data c0 = (1, max_b128_numbers len data).
+Proof. intros t len data c0 H Hb. destruct t; try discriminate H; try reflexivity. congruence. Qed.
+Lemma count_bool : forall len data c0, count_packed_elements (type_code TBool) len data c0 = (1, len).
+Proof. reflexivity. Qed.
+
+Lemma scalar_kinds : forall t, is_scalar t = true -> is_fixed32 t = true \/ is_fixed64 t = true \/ is_varint_type t = true.
+Proof. intros t H. destruct t; try discriminate H; auto. Qed.
+
+Lemma concat_cnt128 : forall encs, Forall (fun b => wfv b /\ (forall x, In x b -> 0 <= x < 256)) encs ->
+  cnt128 (concat encs) = zlen encs.
+Proof.
+  induction encs as [|b encs IH]; intros H; [reflexivity|].
+  inversion H as [|? ? [W HB] H']; subst. cbn [concat]. rewrite cnt128_app, IH by exact H'.
+  rewrite cnt128_wfv by assumption. rewrite zlen_cons. reflexivity.
+Qed.
+
+Lemma concat_fixed_len : forall (encs : list (list Z)) w, Forall (fun b => length b = w) encs ->
+  zlen (concat encs) = Z.of_nat w * zlen encs.
+Proof.
+  induction encs as [|b encs IH]; intros w H; [cbn; lia|].
+  inversion H as [|? ? Hb H']; subst. cbn [concat]. rewrite zlen_app, (IH _ H'), zlen_cons. unfold zlen. lia.
+Qed.
+
+(* the scanner's element count for a canonical packed payload is the number of elements *)
+Lemma count_canonical : forall t ws encs,
+  is_scalar t = true ->
+  Forall2 (fun w b => canon_word t w = true /\ e_scalar t w = Ok b) ws encs ->
+  zlen (concat encs) < 4294967296 ->
+  count_packed_elements (type_code t) (zlen (concat encs)) (concat encs) 0 = (1, zlen ws).
+Proof.
+  intros t ws encs Hs H Hlen.
+  assert (Hlen2 : zlen ws = zlen encs).
+  { unfold zlen. f_equal. clear - H. induction H; cbn; lia. }
+  assert (HB : forall x, In x (concat encs) -> 0 <= x < 256).
+  { intros x Hx. apply in_concat in Hx. destruct Hx as (b & Hb & Hxb).
+    clear - H Hb Hxb Hs. induction H as [|w b0 ws encs [_ He] _ IH]; [contradiction|].
+    destruct Hb as [<-|Hb]; [exact (proj1 (scalar_payload_ok t w b0 Hs He) x Hxb) | exact (IH Hb)]. }
+  destruct (scalar_kinds t Hs) as [H32 | [H64 | Hv]].
+  - rewrite count_fixed32 by exact H32.
+    assert (Hall : Forall (fun b => length b = 4%nat) encs).
+    { clear - H H32. induction H as [|w b ws encs [_ He] _ IH]; constructor; [|exact IH].
+      pose proof (fixed_len t w b He). destruct t; try discriminate H32; unfold zlen in *; lia. }
+    rewrite (concat_fixed_len encs 4 Hall). change (Z.of_nat 4) with 4.
+    replace (4 * zlen encs mod 4) with 0 by lia. cbn [Z.eqb negb]. f_equal. lia.
+  - rewrite count_fixed64 by exact H64.
+    assert (Hall : Forall (fun b => length b = 8%nat) encs).
+    { clear - H H64. induction H as [|w b ws encs [_ He] _ IH]; constructor; [|exact IH].
+      pose proof (fixed_len t w b He). destruct t; try discriminate H64; unfold zlen in *; lia. }
+    rewrite (concat_fixed_len encs 8 Hall). change (Z.of_nat 8) with 8.
+    replace (8 * zlen encs mod 8) with 0 by lia. cbn [Z.eqb negb]. f_equal. lia.
+  - assert (Hall : Forall (fun b => wfv b /\ (forall x, In x b -> 0 <= x < 256)) encs).
+    { clear - H Hv. induction H as [|w b ws encs [_ He] _ IH]; constructor; [|exact IH].
+      destruct (varint_payload t w b Hv He) as (W & _ & B). auto. }
+    destruct (ftype_eqb t TBool) eqn:Eb.
+    + assert (t = TBool) by (destruct t; try discriminate Eb; reflexivity). subst t.
+      rewrite count_bool. f_equal.
+      assert (Hone : Forall (fun b => length b = 1%nat) encs).
+      { clear - H. induction H as [|w b ws encs [_ He] _ IH]; constructor; [|exact IH].
+        cbn [e_scalar] in He. inversion He. rewrite e_bool_spec. reflexivity. }
+      rewrite (concat_fixed_len encs 1 Hone). lia.
+    + rewrite count_varint; [|exact Hv | intros ->; discriminate Eb].
+      rewrite max_b128_spec by assumption. rewrite concat_cnt128 by exact Hall. f_equal. lia.
+Qed.
